@@ -344,7 +344,7 @@ def dyadic(x):
     return [q, e]
 
 
-def dyadic_fine(x, emax=24):
+def dyadic_fine(x, emax=24, tol=1e-6):
     """double-precision variant for pyclifford results: x == num / 2**e exactly (up to 1e-6 units of 2^-emax),
     e <= emax, |num| < 2^30 (used where a deviation of 1e-6 matters: scalars next to the units 1, -1, i, -i;
     couplings below a pruning tolerance)"""
@@ -359,7 +359,7 @@ def dyadic_fine(x, emax=24):
     if not isinstance(x, float) or x != x or abs(x) * 2 ** emax >= 2 ** 30:
         return None
     q = round(x * 2 ** emax)
-    if abs(x * 2 ** emax - q) > 1e-6:
+    if abs(x * 2 ** emax - q) > tol:
         return None
     e = emax
     while e > 0 and q % 2 == 0:
